@@ -63,7 +63,7 @@ def _kv(pid, text, model_chk=False):
 PROPS = {
     "C01": _kv("C01", "Full proof on the model: for every history (any collections, keys, entry points, arguments, clocks, size limits, purges, drops, expiry firings) every read answers from the current document, every failed/refused call leaves the document's complete view unchanged, and every successful write is what the next read-back shows (C01_holds, by a per-call theorem over all entry points and document states lifted by induction over histories). Tied to the code by differential execution of generated histories with full read-back after every step."),
     "C02": _kv("C02", "Sequential part proved in full on the model: a conditional write (every entry point that carries an expected CAS) that succeeds had an expected CAS equal to the document's current CAS (0 = no document; for WriteCas no live document), and one that fails changes nothing (C02_holds, all histories). The two-writer race is covered by the concurrency model of C03 (scheduled executions through the subdoc window)."),
-    "C05": _kv("C05", "Full proof on the model: in every reachable store the tombstone column equals 'value IS NULL' (C05_flag_iff_nobody), and every history is accepted by the checker: deletion opcode iff no body, Delete/Remove keep exactly the system xattrs and clear the expiry, a body write onto a body-less key leaves only the supplied xattrs (C05_holds)."),
+    "C05": _kv("C05", "Full proof on the model: in every reachable store the tombstone column equals 'value IS NULL' (C05_flag_iff_nobody), and every history is accepted by the checker: deletion opcode iff no body, Delete/Remove keep exactly the system xattrs and clear the expiry, a body write onto a body-less key leaves only the supplied xattrs (C05_holds); PurgeTombstones removes exactly the body-less rows (C05_purge, on the store; its trace-level check is validated on model traces by evaluation).", model_chk=True),
     "C06": _kv("C06", "Full proof on the model: for every history an insert-style write (Add, AddRaw, WriteCas AddOnly / cas 0, WriteResurrectionWithXattrs) succeeds only on a key without a body and a refusal happens only on a key with a body and leaves it untouched; WriteWithXattrs cas 0 succeeds only on an absent key (C06_holds)."),
     "C07": _kv("C07", "Full proof on the model: an xattr-only write changes exactly the named xattrs and keeps body, datatype and (unless given) expiry; a body-only write to a live document keeps its xattrs; a failed call changes nothing (C07_holds; frame lemmas over apply_xattrs / xattrs_remove for all xattr maps and name lists). Macro expansion values are compared exactly by the correspondence (CAS string and CRC32c computed in Coq)."),
     "C08": _kv("C08", "Sequential part proved in full on the model: every successful CAS-stamping call posts exactly one event equal to the rendering of the document as stored (key, opcode, body, xattrs, datatype bits, CAS, expiry, revision), every failed/refused call and every touch posts none (C08_holds, all histories). CAS order of delivery under concurrent writers is part of the interleaving model (partial)."),
